@@ -6,7 +6,7 @@ import warnings
 
 import numpy as np
 
-from .. import fcsgen, beadsgen, explore
+from .. import fcsgen, beadsgen, explore, logicleref
 from ..runner import Result, scratch
 from ..fingerprint import fp as _fp
 
@@ -72,8 +72,23 @@ def judge(res, sig, what, d, truth, out, mef_given, mef_channels, statistic, one
         return None
     if check_partition:
         # every cluster holds events of exactly one generating population and vice versa
-        pairs = set(zip(labels.tolist(), tl.tolist()))
-        if len(pairs) != npop or len(set(p[0] for p in pairs)) != npop or len(set(p[1] for p in pairs)) != npop:
+        # (populations piled up at the same detector limit in every calibrated channel cannot be told apart by anything: they count as one
+        # class that spans as many clusters as it has populations)
+        arr_ = np.asarray(d)
+        cols_ = [list(d.channels).index(ch_) for ch_ in truth['fl_names']]
+        piled = [j for j in range(npop) if all(np.all(arr_[tl == j][:, c_] >= d.range(c_)[1]) for c_ in cols_)]
+        cls = {j: (piled[0] if j in piled else j) for j in range(npop)}
+        tcl = [cls[j] for j in tl.tolist()]
+        pairs = set(zip(labels.tolist(), tcl))
+        by_label = {}
+        for a_, b_ in pairs:
+            by_label.setdefault(a_, set()).add(b_)
+        by_class = {}
+        for a_, b_ in pairs:
+            by_class.setdefault(b_, set()).add(a_)
+        okp = len(by_label) == npop and all(len(v_) == 1 for v_ in by_label.values()) and \
+            all(len(v_) == (len(piled) if k_ in piled else 1) for k_, v_ in by_class.items())
+        if not okp:
             mixed = {}
             for a, b in zip(labels.tolist(), tl.tolist()):
                 mixed.setdefault(a, set()).add(b)
@@ -128,9 +143,23 @@ def judge(res, sig, what, d, truth, out, mef_given, mef_channels, statistic, one
                     what, j, ch, 'value unknown' if unknown else 'all events at a detector limit'), one)
                 return None
             if not unknown and not at_limit and j not in kept:
-                t = FlowCal.plot._LogicleTransform(data=d, channel=ch).inverted()
-                s_lo, s_hi = [float(x) for x in t.transform_non_affine(np.array([lo, hi], dtype=float), mask_out_of_range=False)]
-                sp = t.transform_non_affine(np.asarray(pop, dtype=float), mask_out_of_range=False)
+                # position of the population on the documented logicle display of the channel (reference model, not the library's transform)
+                T_ = float(hi)
+                M_ = logicleref.derived_M(T_)
+                W_ = logicleref.derived_W(T_, M_, float(col.min()) if col.min() < 0 else None)
+                p_ = logicleref.p_of_W(W_)
+
+                def disp(x):
+                    a_, b_ = -2.0, M_ + 2.0
+                    for _ in range(80):
+                        mid = 0.5 * (a_ + b_)
+                        if logicleref.biexp(mid, T_, M_, W_, p_) < x:
+                            a_ = mid
+                        else:
+                            b_ = mid
+                    return 0.5 * (a_ + b_)
+                s_lo, s_hi = disp(float(lo)), disp(float(hi))
+                sp = np.array([disp(float(pop.min())), disp(float(pop.max()))])
                 inside = np.all((sp > s_lo + 0.05 * (s_hi - s_lo)) & (sp < s_lo + 0.95 * (s_hi - s_lo)))
                 if inside:
                     res.violation(sig + ':wrongly-excluded', '%s: population #%d of channel %s lies well inside the detector range but was left out of the fit' % (
@@ -352,14 +381,14 @@ def run_a(c, res):
 def layer_b_cases(tier, seed):
     dims = [('n_pop', [6, 7, 8]), ('ratio', [3.0, 2.5, 4.0]), ('cv', [0.03, 0.02, 0.05]), ('n_events', [200, 800]),
             ('m', [1.0, 0.9, 1.2]), ('b', [3.0, 1.0, 5.0]), ('auto', ['none', 'some']), ('nch', [1, 2, 3]), ('blank', [False, True]),
-            ('saturated', [None, 'brightest', 'dimmest']), ('unknown', [None, 'first', 'middle', 'last']),
+            ('saturated', [None, 'brightest', 'dimmest', 'two-brightest']), ('unknown', [None, 'first', 'middle', 'last']),
             ('cluster', ['mef', 'one', 'all-fl', 'with-scatter']), ('container', ['int', 'float']), ('statistic', ['median', 'mean']),
             ('sizes', ['equal', 'alternating', 'increasing', 'decreasing']), ('decades', [5, 4])]
     bound = 1 if tier == 'quick' else 2
     K = 2 if tier == 'quick' else 4
     streams = [seed * K + i for i in range(K)]
     for cfg in explore.deviations(dims, bound):
-        top = 3.0 * cfg['ratio'] ** (cfg['n_pop'] - 1 + (1 if cfg['blank'] else 0)) * (1.5 if cfg['saturated'] != 'brightest' else 0.3)
+        top = 3.0 * cfg['ratio'] ** (cfg['n_pop'] - 1 + (1 if cfg['blank'] else 0)) * (1.5 if cfg['saturated'] not in ('brightest', 'two-brightest') else 0.3)
         if top >= 10 ** cfg['decades']:
             continue          # the ladder would not fit into the detector range
         for st in streams:
@@ -372,6 +401,10 @@ def layer_b_cases(tier, seed):
     cfg_c = dict(base, container='float', rfi_min=30.0, n_pop=cfg_a['n_pop'])
     for seq in ([cfg_a, cfg_b, cfg_a], [cfg_b, cfg_a, cfg_c], [cfg_c, cfg_b]):
         yield dict(kind='B-sequence', cfgs=seq, stream=streams[0])
+    # floating-point files that declare a range of 2**24 (the display then has more than 4.5 decades), with dim but well resolved beads
+    for v in (50.0, 80.0, 150.0):
+        for sat in (None, 'two-brightest'):
+            yield dict(kind='B', cfg=dict(base, container='float', frange=2 ** 24, rfi_min=v, n_pop=8, saturated=sat, decades=6), stream=streams[0])
     # the same bead sample object calibrated twice, the first time with the diagnostic figures switched on: the figures are a by-product,
     # the sample handed in stays as it was and the second calibration reproduces the first. The dimmest population is stepped through
     # the region just above the lower detector limit, where the exclusion rule is sensitive to the limits the sample reports.
@@ -394,7 +427,7 @@ def spec_of(cfg, stream):
              'decreasing': [int(round(800 - 600.0 * j / (k - 1))) for j in range(k)]}[cfg.get('sizes', 'equal')]
     spec = dict(DEFAULT, n_pop=cfg['n_pop'], ratio=cfg['ratio'], cv=cfg['cv'], n_events=sizes, laws=laws,
                 blank=cfg['blank'], saturated=cfg['saturated'], container=cfg['container'], stream=stream, decades=cfg.get('decades', 5),
-                rfi_min=cfg.get('rfi_min', 3.0))
+                rfi_min=cfg.get('rfi_min', 3.0), frange=cfg.get('frange', 262144))
     if cfg['auto'] == 'some' or cfg['blank']:
         laws2 = []
         for (m, b, a) in laws:
